@@ -1092,7 +1092,10 @@ class Fxp():
 
         If signed integer representation of this value is needed, use `raw` method instead.
         """
-        return np.where(self.val < 0, (1 << self.n_word) + self.val, self.val)
+        val = self.val
+        if self.n_word >= 63 and isinstance(val, (np.ndarray, np.generic)) and val.dtype.kind == 'i':
+            val = val.astype(object)    # python integers: 2**n_word doesn't fit in a 64 bits signed integer
+        return np.where(val < 0, (1 << self.n_word) + val, val)
 
     def equal(self, x, index=None):
         """
